@@ -26,7 +26,8 @@ def families(tier):
             F("condput", "append", "append", op4="append", att=(3, 3, 3), fail=1, lost=1, crash=1),
             F("rename", "append", "append", op4="append", att=(2, 2, 2), fail=1, lost=1, crash=0, r3=99),
             F("lock", "append", "append", op4="append", att=(2, 2, 2), fail=0, lost=0, crash=1, r3=99),
-            F("external", "append", "append", fail=1, lost=1, crash=1, r5=0),
+            F("external", "append", "append", fail=1, lost=1, crash=1),
+            F("external", "append", "none", fail=1, lost=0, crash=1, r5=0),
             F("rename", "overwrite", "overwrite", fail=1, lost=1, crash=1),
             F("external", "bare", "bare", op4="bare", att=(1, 1, 1), fail=0, lost=1, crash=0, r3=99),
             F("external", "bare", "bare", att=(1, 1, 1), fail=1, lost=1, crash=1),
